@@ -117,6 +117,12 @@ class C20(Monitor):
             steps.insert(a, ["at", "Skip", "part 3"])
             for _ in range(rnd.randint(1, 3)):
                 steps.insert(rnd.randrange(b + 2, len(steps) + 1), ["at", "Skip", "part 3"])
+        if rnd.random() < 0.08 and len(steps) > 10:
+            # a workspace offset, and its reset by the sub-coded form, somewhere in the program
+            a = rnd.randrange(2, len(steps) - 4)
+            b = rnd.randrange(a + 1, len(steps) - 1)
+            steps.insert(b, ["g", rnd.choice(["G92.1", "G92.1", "G92.1 X0"])])
+            steps.insert(a, ["g", "G92 X%d Y%d" % (rnd.choice([0, 5, 10, -20]), rnd.choice([0, 5, 10, -20]))])
         cut = rnd.randint(1, max(1, len(steps) - 3))
         eol = rnd.choice(["\n", "\n", "\r\n"])
         lines = []
